@@ -2,12 +2,12 @@
 # tools/try_mutation.sh <outdir> <k> <prop> [more props...]
 # Confirms a seeded mutation (demo passes on HEAD, fails with the change, repository suite still passes) and runs
 # the given checks against the mutated tree. Prints a summary; leaves nothing behind.
-OUT=$1; K=$2; shift 2
+OUT=$1; K=$2; shift 2; PFX=${MUT_PREFIX:-m}
 export GOFLAGS=-mod=mod GOPROXY=off GOSUMDB=off GOTOOLCHAIN=local
 WT=/tmp/wt-mut-$$
 git -C /repo worktree add -q "$WT" HEAD || exit 2
 trap 'git -C /repo worktree remove --force "$WT" >/dev/null 2>&1' EXIT
-DEMO=$(ls $OUT/m${K}_demo_test.go 2>/dev/null)
+DEMO=$(ls $OUT/${PFX}${K}_demo_test.go 2>/dev/null)
 PKG=${DEMO_PKG:-fhirpath}
 if [ -n "$DEMO" ]; then
   if [ -z "$DEMO_PKG" ] && grep -q "^package system" "$DEMO"; then PKG=fhirpath/system; fi
@@ -17,7 +17,7 @@ if [ -n "$DEMO" ]; then
   TESTS=$(grep -o "^func Test[A-Za-z0-9_]*" "$DEMO" | sed 's/func //' | paste -sd'|')
   (cd $WT && go test -vet=off -count=1 -run "^($TESTS)\$" ./$PKG/ >/tmp/mut_demo_head.log 2>&1) && echo "demo on HEAD: PASS" || echo "demo on HEAD: FAIL (unexpected)"
 fi
-(cd $WT && git apply "$OUT/m$K.diff") || { echo "diff does not apply"; exit 2; }
+(cd $WT && git apply "$OUT/${PFX}$K.diff") || { echo "diff does not apply"; exit 2; }
 if [ -n "$DEMO" ]; then
   (cd $WT && go test -vet=off -count=1 -run "^($TESTS)\$" ./$PKG/ >/tmp/mut_demo_mut.log 2>&1) && echo "demo with change: PASS (unexpected)" || echo "demo with change: FAIL (as claimed)"
   rm -f "$WT/$PKG/zz_m${K}_demo_test.go"
